@@ -213,6 +213,38 @@ func (e *env) competingPair(caseID string, rng *rand.Rand, m *refmodel.Model, co
 	return true
 }
 
+// wideHeights: blockHeight values outside the 32 bits a height has, written as the client would write them (plain JSON
+// numbers): the height of a longest-chain block plus or minus a multiple of 2^32. The request may be refused (4xx) or
+// answered; an answer must not say CONFIRMED (no block is at that height) and must echo the height that was submitted.
+func (e *env) wideHeights(caseID string, m *refmodel.Model) bool {
+	r := e.r
+	best := m.Best()
+	if best.Height < 1 {
+		return true
+	}
+	for _, off := range []int64{1 << 32, -(1 << 32), 1 << 40, 3 << 32} {
+		hgt := int64(best.Height) + off
+		body := fmt.Sprintf(`[{"merkleRoot":%q,"blockHeight":%d}]`, best.Merkle.String(), hgt)
+		w := e.byExcess[6].POST("/api/v1/chain/merkleroot/verify", []byte(body))
+		r.Count("requests_with_a_height_beyond_32_bits", 1)
+		if w.Code >= 400 && w.Code < 500 {
+			r.Count("heights_beyond_32_bits_refused", 1)
+			continue
+		}
+		var rs resp
+		if w.Code != 200 || mb.DecodeOne(w.Body.Bytes(), &rs) != nil || len(rs.Confirmations) != 1 {
+			r.Violate("wide-height|http", fmt.Sprintf("POST verify with blockHeight %d -> %d %s", hgt, w.Code, w.Body.String()), caseID, map[string]any{"body": body})
+			return false
+		}
+		c := rs.Confirmations[0]
+		if c.Confirmation == refmodel.Confirmed || c.BlockHeight != hgt {
+			r.Violate("verdict|height-beyond-32-bits|"+c.Confirmation, fmt.Sprintf("the tip's merkle root was submitted with blockHeight %d (the tip is at height %d): verdict %s for height %d", hgt, best.Height, c.Confirmation, c.BlockHeight), caseID, map[string]any{"body": body, "answer": w.Body.String()})
+			return false
+		}
+	}
+	return true
+}
+
 func sigOf(it item, want, got string) string {
 	return fmt.Sprintf("verdict|%s|%s->%s", it.class, want, got)
 }
@@ -503,6 +535,9 @@ func body(r *ev.Run) {
 				}
 				if si.Reorg || last || k%10 == 9 {
 					if !e.verifyLists(caseID, rng, m, hist, k, 2) {
+						return
+					}
+					if last && !e.wideHeights(caseID, m) {
 						return
 					}
 				}
